@@ -38,7 +38,7 @@ class C10(Prop):
         'encode_eq_spec', 'decode_eq_spec', 'decode_encode', 'encode_decode', 'decode_invalid_char',
         'decode_no_python_error', 'spec_dec_enc', 'spec_enc_dec',
         'check_accepts_iff', 'check_rejects', 'check_outcomes', 'check_eq_spec', 'str_eq_spec', 'check_roundtrip',
-        'check_roundtrip_sha256d')]
+        'check_roundtrip_sha256d', 'encode_injective', 'decode_injective')]
     anchors = [('bitcoin/base58.py', 'encode'), ('bitcoin/base58.py', 'decode'),
                ('bitcoin/base58.py', 'CBase58Data.__new__'), ('bitcoin/base58.py', 'CBase58Data.from_bytes'),
                ('bitcoin/base58.py', 'CBase58Data.__str__')]
